@@ -67,7 +67,7 @@ pub fn make_module() -> KMap {
                 let expected_error = "|Number, Number|";
 
                 match ctx.instance_and_args(is_number, expected_error)? {
-                    (Number(a), [Number(b)]) if *b >= 0 => {
+                    (Number(a), [Number(b)]) if *b >= 0 && *b < i64::BITS => {
                         Ok((i64::from(a) $op i64::from(b)).into())
                     }
                     (instance, args) => {
